@@ -10,10 +10,12 @@ import (
 	"crypto/sha256"
 	"fmt"
 	"sync/atomic"
+
+	sdk "github.com/cosmos/cosmos-sdk/types"
 )
 
 type c07Stats struct {
-	execs, pinnedIters, multiBucket, txWithIter, txNoIter, maxIters, akashIters, akashMulti, clockReads int64
+	execs, pinnedIters, multiBucket, txWithIter, txNoIter, maxIters, akashIters, akashMulti, clockReads, gasCuts int64
 }
 
 var c07 c07Stats
@@ -35,6 +37,28 @@ func sc3Bids() Scenario {
 	sc.Alphabet = al
 	return sc
 }
+
+// c07MaxCuts: out-of-gas cut points tried per transaction (quick: evenly spaced; thorough: effectively all)
+var c07MaxCuts = 16
+
+// recMeter is an infinite gas meter that records the cumulative consumption after every ConsumeGas call.
+type recMeter struct {
+	consumed uint64
+	cuts     []uint64
+}
+
+func (m *recMeter) GasConsumed() sdk.Gas        { return m.consumed }
+func (m *recMeter) GasConsumedToLimit() sdk.Gas { return m.consumed }
+func (m *recMeter) Limit() sdk.Gas              { return 0 }
+func (m *recMeter) ConsumeGas(amount sdk.Gas, descriptor string) {
+	m.consumed += amount
+	if n := len(m.cuts); n == 0 || m.cuts[n-1] != m.consumed {
+		m.cuts = append(m.cuts, m.consumed)
+	}
+}
+func (m *recMeter) IsPastLimit() bool { return false }
+func (m *recMeter) IsOutOfGas() bool  { return false }
+func (m *recMeter) String() string    { return fmt.Sprintf("recMeter(%d)", m.consumed) }
 
 type chkC07 struct{}
 
@@ -111,6 +135,33 @@ func (chkC07) CheckTrans(t *TransCtx) (out []Viol) {
 			return out
 		}
 	}
+	// an earlier ABORTED attempt must not matter either: the transaction is cut off by an out-of-gas panic at a store
+	// access (every access point in the thorough tier, evenly spaced ones in quick), the attempt is discarded, and the
+	// transaction is then executed normally on the same state: result must equal the base execution
+	rec := &recMeter{}
+	w.ExecGas(t.PreSt.Branch(), t.Act.Msg(w.Cast), rec)
+	cuts := rec.cuts
+	if max := c07MaxCuts; len(cuts) > max {
+		var sel []uint64
+		for i := 0; i < max; i++ {
+			sel = append(sel, cuts[i*len(cuts)/max])
+		}
+		cuts = sel
+	}
+	for _, c := range cuts {
+		if c == 0 {
+			continue
+		}
+		aborted := w.ExecGas(t.PreSt.Branch(), t.Act.Msg(w.Cast), sdk.NewGasMeter(c-1))
+		st := t.PreSt.Branch()
+		res := w.Exec(st, t.Act.Msg(w.Cast))
+		atomic.AddInt64(&c07.execs, 2)
+		atomic.AddInt64(&c07.gasCuts, 1)
+		if fingerprint(w, st, res) != base {
+			out = append(out, Viol{"C07.deterministic", "after-aborted-attempt:" + t.Act.Kind, fmt.Sprintf("%s: after an attempt that ran out of gas at %d gas units (discarded: ok=%v %s) the same transaction on the same state gives a different result (ok=%v err=%q; untouched process: ok=%v err=%q)", t.Act.Name, c-1, aborted.OK, aborted.Err, res.OK, res.Err, res0.OK, res0.Err)})
+			return out
+		}
+	}
 	if cnt == 0 {
 		atomic.AddInt64(&c07.txNoIter, 1)
 		return out
@@ -143,6 +194,7 @@ func (chkC07) CheckTrans(t *TransCtx) (out []Viol) {
 }
 
 func c07Extra(thorough bool) (extraResult, error) {
+	_ = thorough
 	if !mapHookAvailable {
 		return extraResult{}, fmt.Errorf("C07 needs the runtime map overlay (build with -tags verifmap -overlay ...; see checks/C07)")
 	}
@@ -166,7 +218,8 @@ func c07Extra(thorough bool) (extraResult, error) {
 		"multi_bucket_map_iterations": atomic.LoadInt64(&c07.multiBucket),
 		"map_iterations_in_akash_code": atomic.LoadInt64(&c07.akashIters), "multi_bucket_map_iterations_in_akash_code": atomic.LoadInt64(&c07.akashMulti), "transactions_iterating_maps": atomic.LoadInt64(&c07.txWithIter),
 		"transactions_without_map_iteration": atomic.LoadInt64(&c07.txNoIter), "max_map_iterations_in_one_tx": atomic.LoadInt64(&c07.maxIters),
-		"hook_selftest_distinct_orders": len(orders), "time_now_calls_under_shifted_clock": atomic.LoadInt64(&c07.clockReads)}
+		"hook_selftest_distinct_orders": len(orders), "time_now_calls_under_shifted_clock": atomic.LoadInt64(&c07.clockReads),
+		"out_of_gas_cut_points_followed_by_reexecution": atomic.LoadInt64(&c07.gasCuts), "max_cut_points_per_tx": c07MaxCuts}
 	ne := ""
 	if n := atomic.LoadInt64(&c07.akashMulti); n > 0 {
 		ne = fmt.Sprintf("%d iterations over multi-bucket maps happened inside akash code; their order also depends on the per-map hash seed, which is not enumerated", n)
